@@ -4,6 +4,7 @@ package eth2wrap
 
 import (
 	"context"
+	"maps"
 	"slices"
 	"strconv"
 	"sync"
@@ -415,7 +416,7 @@ func (c *DutiesCache) ProposerDutiesCache(ctx context.Context, epoch eth2p0.Epoc
 		// Fast path: every requested index has been queried previously, so the cache answer is complete.
 		if len(missing) == 0 {
 			cacheUsed = true
-			return ProposerDutyWithMeta{Duties: dutiesResult, Metadata: dutiesForEpoch.metadata}, nil
+			return ProposerDutyWithMeta{Duties: dutiesResult, Metadata: maps.Clone(dutiesForEpoch.metadata)}, nil
 		}
 
 		if len(dutiesResult) > 0 {
@@ -510,7 +511,7 @@ func (c *DutiesCache) AttesterDutiesCache(ctx context.Context, epoch eth2p0.Epoc
 		// Fast path: every requested index has been queried previously, so the cache answer is complete.
 		if len(missing) == 0 {
 			cacheUsed = true
-			return AttesterDutyWithMeta{Duties: dutiesResult, Metadata: dutiesForEpoch.metadata}, nil
+			return AttesterDutyWithMeta{Duties: dutiesResult, Metadata: maps.Clone(dutiesForEpoch.metadata)}, nil
 		}
 
 		if len(dutiesResult) > 0 {
@@ -598,6 +599,7 @@ func (c *DutiesCache) SyncCommDutiesCache(ctx context.Context, epoch eth2p0.Epoc
 
 		for _, d := range dutiesForEpoch.duties {
 			if _, hit := requestedSet[d.ValidatorIndex]; hit {
+				d.ValidatorSyncCommitteeIndices = slices.Clone(d.ValidatorSyncCommitteeIndices)
 				dutiesResult = append(dutiesResult, &d)
 			}
 		}
@@ -605,7 +607,7 @@ func (c *DutiesCache) SyncCommDutiesCache(ctx context.Context, epoch eth2p0.Epoc
 		// Fast path: every requested index has been queried previously, so the cache answer is complete.
 		if len(missing) == 0 {
 			cacheUsed = true
-			return SyncDutyWithMeta{Duties: dutiesResult, Metadata: dutiesForEpoch.metadata}, nil
+			return SyncDutyWithMeta{Duties: dutiesResult, Metadata: maps.Clone(dutiesForEpoch.metadata)}, nil
 		}
 
 		if len(dutiesResult) > 0 {
@@ -629,6 +631,7 @@ func (c *DutiesCache) SyncCommDutiesCache(ctx context.Context, epoch eth2p0.Epoc
 		}
 
 		d := *duty
+		d.ValidatorSyncCommitteeIndices = slices.Clone(d.ValidatorSyncCommitteeIndices)
 		dutiesDeref = append(dutiesDeref, d)
 	}
 
@@ -721,7 +724,7 @@ func (c *DutiesCache) storeOrAmendProposerDuties(epoch eth2p0.Epoch, dutiesForEp
 	alreadySavedDuties, ok := c.proposerDuties.duties[epoch]
 	if !ok {
 		c.proposerDuties.duties[epoch] = dutiesForEpoch.duties
-		c.proposerDuties.metadata[epoch] = dutiesForEpoch.metadata
+		c.proposerDuties.metadata[epoch] = maps.Clone(dutiesForEpoch.metadata)
 		c.proposerDuties.requestedIdxs[epoch] = dutiesForEpoch.requestedIdxs
 
 		return dutiesForEpoch.duties, true
@@ -769,7 +772,7 @@ func (c *DutiesCache) storeOrAmendAttesterDuties(epoch eth2p0.Epoch, dutiesForEp
 	alreadySavedDuties, ok := c.attesterDuties.duties[epoch]
 	if !ok {
 		c.attesterDuties.duties[epoch] = dutiesForEpoch.duties
-		c.attesterDuties.metadata[epoch] = dutiesForEpoch.metadata
+		c.attesterDuties.metadata[epoch] = maps.Clone(dutiesForEpoch.metadata)
 		c.attesterDuties.requestedIdxs[epoch] = dutiesForEpoch.requestedIdxs
 
 		return dutiesForEpoch.duties, true
@@ -818,7 +821,7 @@ func (c *DutiesCache) storeOrAmendSyncDuties(epoch eth2p0.Epoch, dutiesForEpoch 
 	alreadySavedDuties, ok := c.syncDuties.duties[epoch]
 	if !ok {
 		c.syncDuties.duties[epoch] = dutiesForEpoch.duties
-		c.syncDuties.metadata[epoch] = dutiesForEpoch.metadata
+		c.syncDuties.metadata[epoch] = maps.Clone(dutiesForEpoch.metadata)
 		c.syncDuties.requestedIdxs[epoch] = dutiesForEpoch.requestedIdxs
 
 		return dutiesForEpoch.duties, true
